@@ -797,6 +797,17 @@ func (en *Env) callExpr(e *ECall) Val {
 			v := en.eval(e.Args[0])
 			en.st = saved
 			return v
+		case "called":
+			// called("pkg.Func"): the function under verification has called it on this path
+			lit, ok := e.Args[0].(*ELit)
+			if !ok || lit.Kind != "string" {
+				en.fail("called() needs a string literal")
+			}
+			t, ok := en.st.heap["G|called|"+strings.Trim(lit.Text, "\"")]
+			if !ok {
+				return boolVal("false")
+			}
+			return boolVal(t)
 		case "oldheap":
 			// the entry heap read through the CURRENT values of locals (old() reads locals in the entry state too)
 			if en.old == nil {
